@@ -225,9 +225,11 @@ def sheetCharOK (c : Char) : Bool :=
     warns beyond that; Excel refuses), none of `\ / ? * [ ] :` (openpyxl raises ValueError) -/
 def sheetNameOK (n : Str) : Bool := !n.isEmpty && decide (n.length ≤ 31) && n.all sheetCharOK
 
-/-- the sheet names of a workbook: each legal, pairwise distinct ignoring case (`create_sheet` silently renames a
+/-- the sheet names of a workbook: at least one (openpyxl cannot save a workbook without a sheet: IndexError), each
+    legal, pairwise distinct ignoring case (`create_sheet` silently renames a
     duplicate: `{"A", "a"}` is written as `A`, `a1`) -/
-def sheetNamesOK (names : List Str) : Bool := names.all sheetNameOK && distinct (names.map sheetKey)
+def sheetNamesOK (names : List Str) : Bool :=
+  !names.isEmpty && names.all sheetNameOK && distinct (names.map sheetKey)
 
 /-! ## styling: the index arithmetic of `_style_tables_in_worksheet` -/
 
